@@ -147,10 +147,127 @@ static void sweep(uint64_t in_id, size_t len, int reduced, int big)
 	}
 }
 
+/* ---- one stream object used for SEVERAL one-shot calls. Two histories are defined by the interface:
+ *  (R) retry: a call refused with STATELESS_OVERFLOW (output too small, at several points in mid-input) is repeated on the SAME
+ *      object with a larger buffer - raw wrapper (with gzip/zlib the refused attempt leaves "header written" set, so a retry
+ *      without re-initialisation is not a defined history);
+ *  (N) next buffer: after any first call (successful, refused, stored-block fallback) another, unrelated buffer is compressed
+ *      with the same object - raw wrapper only (with gzip/zlib the object deliberately remembers that the header was written).
+ * The later call must produce a stream that decodes to its input, and exactly the bytes a fresh object gives. */
+static void stateless_reuse(void)
+{
+	static uint8_t *A, *B, *OA, *OB, *OF;
+	enum { AMAX = 2 << 20 };
+	if (!A) {
+		A = malloc(AMAX); B = malloc(70000); OA = malloc(AMAX + AMAX / 2); OB = malloc(AMAX + AMAX / 2); OF = malloc(AMAX + AMAX / 2);
+	}
+	static const int cpus[] = { CPU_BASE, CPU_AVX2, CPU_AVX512G2 };
+	static const int alen_q[] = { 300000, 2 << 20, 5000 }, blen_q[] = { 5000, 0, 66000 };
+	char key[400], why[256];
+	uint64_t unit = 5000000;
+	for (int level = 0; level <= 3; level++)
+		for (int lb = 0; lb < 2; lb++)
+			for (int akind = 0; akind < 3; akind++) /* A's data: text, incompressible, mixed */
+				for (int ai = 0; ai < 3; ai++)
+					for (int ci = 0; ci < 3; ci++)
+						for (int fl = 0; fl <= 2; fl += 2) {
+							if (level == 0 && lb)
+								continue;
+							if (!v_thorough && (ci != (level + akind + ai) % 3))
+								continue; /* quick: one kernel set per configuration, rotating */
+							if (!v_mine(unit++))
+								continue;
+							if (nfail > 40 || v_deadline_hit())
+								return;
+							int alen = alen_q[ai];
+							if (akind == 0) fill_pattern(A, alen, PAT_TEXT, 3); else if (akind == 1) fill_xorshift(A, alen, 9); else fill_mixed(A, alen, 4);
+							cpu_set_level(cpus[ci]);
+							uint32_t lbs = level ? lb_size(level, lb ? LB_DEFAULT : LB_MIN) : 0;
+							struct isal_zstream *s = g_alloc(sizeof *s, G_END), *f = g_alloc(sizeof *f, G_END);
+							uint8_t *lbuf = level ? g_alloc(lbs, G_END) : NULL, *lbuf2 = level ? g_alloc(lbs, G_END) : NULL;
+							for (int scen = 1; scen < 3; scen++) { /* 1: retry/raw, 2: next buffer/raw (0, retry/gzip, is not defined: see DESIGN 9.3 observations) */
+								int gz = scen == 0 ? IGZIP_GZIP : IGZIP_DEFLATE;
+								/* A alone on a scratch object: its size, and the bytes a fresh object gives */
+								isal_deflate_stateless_init(f);
+								f->level = level; f->level_buf = lbuf2; f->level_buf_size = lbs; f->flush = fl; f->gzip_flag = gz;
+								f->next_in = A; f->avail_in = alen; f->end_of_stream = 1; f->next_out = OF; f->avail_out = AMAX + AMAX / 2;
+								if (isal_deflate_stateless(f) != COMP_OK)
+									continue;
+								size_t csize = f->total_out;
+								const size_t aouts[] = { AMAX + AMAX / 2, csize - 1, csize / 2, csize / 4, 100, 0 };
+								for (unsigned oi = scen < 2 ? 1 : 0; oi < 6; oi++)
+									for (int bi = 0; bi < (scen < 2 ? 1 : 3); bi++) {
+										const uint8_t *in2 = A;
+										int len2 = alen;
+										size_t flen = csize;
+										if (scen == 2) {
+											len2 = blen_q[bi];
+											if (len2) { if ((bi + oi) & 1) fill_pattern(B, len2, PAT_TEXT, 8); else fill_mixed(B, len2, 2); }
+											in2 = B;
+											isal_deflate_stateless_init(f);
+											f->level = level; f->level_buf = lbuf2; f->level_buf_size = lbs; f->flush = fl; f->gzip_flag = gz;
+											f->next_in = B; f->avail_in = len2; f->end_of_stream = 1; f->next_out = OF; f->avail_out = AMAX + AMAX / 2;
+											if (isal_deflate_stateless(f) != COMP_OK)
+												v_broken("fresh one-shot call failed");
+											flen = f->total_out;
+										}
+										int ra = -999, rb = -999, fault = 0;
+										size_t bl2 = 0;
+										if (V_TRY()) {
+											isal_deflate_stateless_init(s);
+											s->level = level; s->level_buf = lbuf; s->level_buf_size = lbs; s->flush = fl; s->gzip_flag = gz;
+											s->next_in = A; s->avail_in = alen; s->end_of_stream = 1; s->next_out = OA; s->avail_out = aouts[oi];
+											ra = isal_deflate_stateless(s);
+											/* later call on the same object: only the buffer fields are set again */
+											s->next_in = (uint8_t *)in2; s->avail_in = len2; s->end_of_stream = 1; s->next_out = OB; s->avail_out = AMAX + AMAX / 2;
+											if (scen == 2)
+												s->total_in = s->total_out = 0;
+											uint32_t to0 = s->total_out;
+											rb = isal_deflate_stateless(s);
+											bl2 = s->total_out - to0;
+											V_END();
+										} else
+											fault = 1;
+										v_eval();
+										snprintf(key, sizeof key, "stateless-reuse %s level=%d level_buf=%s flush=%s cpu=%s first-call input=%s:%d avail_out=%s(%zu of %zu)%s", scen == 0 ? "retry wrapper=gzip" : scen == 1 ? "retry wrapper=raw" : "next-buffer wrapper=raw",
+											 level, lb ? "DEFAULT" : "MIN", flush_name[fl], cpu_level_name[cpus[ci]], akind == 0 ? "text" : akind == 1 ? "incompressible" : "mixed", alen, oi == 0 ? "ample" : "too-small", aouts[oi], csize,
+											 scen == 2 ? (bi == 0 ? " then 5000 bytes" : bi == 1 ? " then 0 bytes" : " then 66000 bytes") : " then the same input with ample space");
+										if (fault) {
+											v_violation(key, "fault %s", v_fault_desc());
+											nfail++;
+										} else if (ra != COMP_OK && ra != STATELESS_OVERFLOW) {
+											v_violation(key, "first call returned %d", ra);
+											nfail++;
+										} else if (scen < 2 && ra == COMP_OK) {
+											v_count("stateless_reuse_first_call_fit_after_all", 1); /* stored fallback fitted: not a retry history */
+										} else if (rb != COMP_OK) {
+											v_violation(key, "later call returned %d (first call %d)", rb, ra);
+											nfail++;
+										} else if (!verify_deflate_output(OB, bl2, gz, in2, len2, 0, 0, NULL, 0, why, sizeof why)) {
+											v_violation(key, "later call on the reused object (first call returned %d): %s", ra, why);
+											nfail++;
+										} else if (bl2 != flen || memcmp(OB, OF, flen)) {
+											v_violation(key, "later call gives %zu bytes, a fresh object %zu bytes, or different bytes: the earlier call (returned %d) leaked into it", bl2, flen, ra);
+											nfail++;
+										}
+										v_count("stateless_reuse_histories", 1);
+									}
+							}
+							g_reset();
+							v_nontrivial(v_mix(0x5717 + level * 8 + lb, akind * 64 + ai * 16 + ci * 4 + fl));
+						}
+}
+
 int main(int argc, char **argv)
 {
 	v_init(argc, argv, "C01");
 	inbuf = malloc(MAXIN);
+	if (v_part && !strcmp(v_part, "reuse")) {
+		stateless_reuse();
+		if (v_shard == 0)
+			v_note("reuse part: one isal_zstream used for two one-shot calls; first call ample / refused at csize-1, csize/2, csize/4, 100, 0 bytes of output; second call must decode to its input and equal a fresh object's output byte for byte");
+		return v_finish();
+	}
 	uint64_t unit = 0;
 	/* SHAPES */
 	for (int li = 0; li < N_SHAPE_LENS; li++)
